@@ -23,6 +23,7 @@ import (
 //   C16 vx <n> <i> <pattern> <seed> <kind> <a>    -> Open status + Verify verdict (Poseidon2) (Lean: symbolic hash)
 //   C16 vxi <n> <p> <pattern> <seed> <j,j,..>     -> Open(p) status + one Verify verdict per index j (leaf / proof / root of position p)
 //   C16 accti sha256 <n> <i> <seed> <j:m,j:m,..>  -> one VerifyProof verdict per (index j, numLeaves m) with the proof of (n, i)
+//   C16 accr sha256 <i|x> <seg> <bytes>           -> ReaderRoot (x) / BuildReaderProof (i) over a stream cut into seg-byte leaves
 // accd history tokens: P:<leaf> Push, S:<h>:<leaves> PushSubTree(h, root of the cached tree over the leaves), R:<seg>:<bytes>
 // ReadAll, I:<idx> SetIndex (ok / err:notempty), and the OBSERVATION calls Or = Root() (answer: root) and Op = Prove() +
 // VerifyProof (answer: root numLeaves proofSet verdict); every observation is written out when it is made.
@@ -713,6 +714,31 @@ func execC16(a []string) string {
 		}
 		p := &c16Pool{mode: c16Mode(a)}
 		return p.done(execC16Decomp(h, a[2], a[3:], p))
+	case a[0] == "accr" && len(a) == 5:
+		h := c16Hash(a[1])
+		seg := int(c16U(a[3]))
+		if h == nil || seg == 0 {
+			return "bad-op"
+		}
+		p := &c16Pool{mode: c16Mode(a)}
+		b := p.sub(parseBytes(a[4]))
+		if a[2] == "x" {
+			r, err := merkletree.ReaderRoot(bytes.NewReader(b), h, seg)
+			if err != nil {
+				return p.done("err:other")
+			}
+			return p.done(c16RootHex(r))
+		}
+		i := c16U(a[2])
+		r, ps, nl, err := merkletree.BuildReaderProof(bytes.NewReader(b), h, seg, i)
+		if err != nil {
+			if len(ps) != 0 || !strings.Contains(err.Error(), "not reached") {
+				return p.done("err:other")
+			}
+			return p.done(fmt.Sprintf("err:notreached %s %x", c16RootHex(r), nl))
+		}
+		v := merkletree.VerifyProof(h, p.sub(r), p.set(ps), i, nl)
+		return p.done(fmt.Sprintf("%s %x %s %s", c16RootHex(r), nl, c16ProofHex(ps), boolStr(v)))
 	case a[0] == "accti" && len(a) == 6:
 		h := c16Hash(a[1])
 		if h == nil {
@@ -906,6 +932,9 @@ func genC16(g *gen) {
 			}
 			g.emit("C16 vx %x %x %s %x none 0", n, pow, pat, seed)   // Open out of range
 			g.emit("C16 vx %x %x %s %x none 0", n, pow+3, pat, seed) // Open out of range
+			for _, q := range []int{pow + 1, 2 * pow, 2*pow - 1, 2*pow + 1, -1, -2, -pow, -pow - 1, 1 << 31, 1 << 32, 1<<32 + 1, 1 << 62, int(^uint(0) >> 1), -int(^uint(0)>>1) - 1, -int(^uint(0) >> 1)} {
+				g.emit("C16 vxi %x %s %s %x 0,%s", n, c16SInt(q), pat, seed, c16SInt(q)) // Open at the boundaries / extremes of int
+			}
 		}
 		if n <= 8 || n%37 == 0 {
 			g.emit("C16 vx %x -1 d %x none 0", n, seed) // negative index
@@ -919,6 +948,8 @@ func genC16(g *gen) {
 	g.emit("C16 vx 3 1 d 1 nosuch 0")
 	g.emit("C16 accd sha256 0 Q:00")
 	g.emit("C16 accd sha256 0 R:0:00")
+	g.emit("C16 accr sha256 0 0 00")
+	g.emit("C16 accr md5 0 1 00")
 }
 
 func c16SInt(j int) string {
@@ -1093,6 +1124,27 @@ func c16GenDecomp(g *gen) {
 			ops = append(ops, fmt.Sprintf("R:%x:%s", 1+g.rng.intn(5), hexBytes(g.rng.bytes(g.rng.intn(9)))))
 		}
 		g.emit("C16 accd sha256 %s %s", idx, join(ops))
+	}
+	// the reader front ends: ReaderRoot / BuildReaderProof over every stream length 0..24 x segment size 1..5 (every index
+	// incl. the first unreached ones), and longer random streams
+	for ln := 0; ln <= 24; ln++ {
+		b := g.rng.bytes(ln)
+		for seg := 1; seg <= 5; seg++ {
+			nl := (ln + seg - 1) / seg
+			g.emit("C16 accr sha256 x %x %s", seg, hexBytes(b))
+			for i := 0; i <= nl+1; i++ {
+				if ln <= 12 || i == 0 || i >= nl-1 || g.rng.intn(3) == 0 {
+					g.emit("C16 accr sha256 %x %x %s", i, seg, hexBytes(b))
+				}
+			}
+		}
+	}
+	for it := 0; it < g.budget(100, 1000); it++ {
+		ln := 25 + g.rng.intn(400)
+		seg := 1 + g.rng.intn(40)
+		b := hexBytes(g.rng.bytes(ln))
+		g.emit("C16 accr sha256 x %x %s", seg, b)
+		g.emit("C16 accr sha256 %x %x %s", g.rng.intn((ln+seg-1)/seg+2), seg, b)
 	}
 	// random larger decompositions with cached sub-trees at random heights (valid and refused)
 	for it := 0; it < g.budget(300, 6000); it++ {
